@@ -42,7 +42,7 @@ def run(tier, seed, selftest=False, replay=None):
     rc = verdict.finish()
     write_evidence(PID, tier, seed, "exploration", {
         "evaluations": len(cases), "distinct_nontrivial": injected,
-        "rule": "real TypeOverwriting on generated and on erased programs (2 random choices each; 4 languages; default and sampled switches); TLC checks "
+        "rule": "real TypeOverwriting on generated and on erased programs (2 random choices each; 4 languages; default and sampled switches) and on every member of the mini-program family HMiniProg (192 well-typed programs around one generic class, enumerated by TLC; every injection site under the enumerated outcomes of the random choices); TLC checks "
                 "the frame (exactly one site differs and only in its declared type / one type argument; NoOp and identical translation when nothing "
                 "was injected), that the replaced and the replacing type are unrelated in the declarative relation over the program's class table, the "
                 "message parts, and - with HTyping - that the overwritten program is rejected (a violation it did not have before). "
